@@ -389,7 +389,8 @@ theorem literal_no_special (num : BList) (n : Nat) (h : parseU32 num = some n) :
 /-- An existing ` (N)` at the end of the first part is found and counted up. -/
 theorem bumpParen_suffix (base num : BList) (n : Nat) (h : parseU32 num = some n) :
     bumpParen (base ++ SP_LPAREN ++ num ++ [RPAREN]) =
-      if n + 1 > U32_MAX then .panic else .ok (base ++ SP_LPAREN ++ decimal (n + 1) ++ [RPAREN]) := by
+      if n + 1 > U32_MAX then .ok (base ++ SP_LPAREN ++ num ++ [RPAREN] ++ PAREN2)
+      else .ok (base ++ SP_LPAREN ++ decimal (n + 1) ++ [RPAREN]) := by
   obtain ⟨hsp, hrp, _, _⟩ := literal_no_special num n h
   have hfirst : base ++ SP_LPAREN ++ num ++ [RPAREN] = base ++ SP_LPAREN ++ (num ++ [RPAREN]) := by
     simp [List.append_assoc]
@@ -426,7 +427,8 @@ theorem bumpParen_suffix (base num : BList) (n : Nat) (h : parseU32 num = some n
 /-- Everything after the last `-` that is a `u32` literal is counted up. -/
 theorem bumpHyphen_suffix (base num : BList) (n : Nat) (h : parseU32 num = some n) :
     bumpHyphen (base ++ [HYPHEN] ++ num) =
-      if n + 1 > U32_MAX then .panic else .ok (base ++ [HYPHEN] ++ decimal (n + 1)) := by
+      if n + 1 > U32_MAX then .ok (base ++ [HYPHEN] ++ num ++ HYPHEN2)
+      else .ok (base ++ [HYPHEN] ++ decimal (n + 1)) := by
   obtain ⟨_, _, hhy, _⟩ := literal_no_special num n h
   have hr : rfind [HYPHEN] (base ++ [HYPHEN] ++ num) = some base.length := by
     apply rfind_append [HYPHEN] num (by simp)
@@ -570,6 +572,11 @@ theorem bumpParen_bound (first f : BList) (hd : DOT ∉ first) (h : bumpParen fi
   · rw [hfirst, bumpParen_suffix base num n hp] at h
     split at h
     · cases h
+      rw [← hfirst]
+      constructor
+      · simp only [List.mem_append, not_or]
+        exact ⟨hd, by simp [PAREN2, DOT]⟩
+      · simp [PAREN2]
     · cases h
       rw [hfirst] at hd
       simp only [List.mem_append, not_or] at hd
@@ -595,6 +602,11 @@ theorem bumpHyphen_bound (first f : BList) (hd : DOT ∉ first) (h : bumpHyphen 
   · rw [hfirst, bumpHyphen_suffix base num n hp] at h
     split at h
     · cases h
+      rw [← hfirst]
+      constructor
+      · simp only [List.mem_append, not_or]
+        exact ⟨hd, by simp [HYPHEN2, DOT]⟩
+      · simp [HYPHEN2]
     · cases h
       rw [hfirst] at hd
       simp only [List.mem_append, not_or] at hd
@@ -701,6 +713,16 @@ theorem bumpParen_chars (first f : BList) (h : bumpParen first = .ok f) :
   · rw [hfirst, bumpParen_suffix base num n hp] at h
     split at h
     · cases h
+      rw [← hfirst]
+      refine ⟨by simp [PAREN2], ?_⟩
+      intro c hc
+      simp only [List.mem_append, PAREN2, List.mem_cons, List.not_mem_nil, or_false] at hc
+      rcases hc with hc | hc | hc | hc | hc
+      · exact Or.inl hc
+      · exact Or.inr (Or.inl hc)
+      · exact Or.inr (Or.inr (Or.inl hc))
+      · right; right; right; right; rw [hc]; decide
+      · exact Or.inr (Or.inr (Or.inr (Or.inl hc)))
     · cases h
       refine ⟨by simp [RPAREN], ?_⟩
       intro c hc
@@ -727,6 +749,14 @@ theorem bumpHyphen_chars (first f : BList) (h : bumpHyphen first = .ok f) :
   · rw [hfirst, bumpHyphen_suffix base num n hp] at h
     split at h
     · cases h
+      rw [← hfirst]
+      refine ⟨by simp [HYPHEN2], ?_⟩
+      intro c hc
+      simp only [List.mem_append, HYPHEN2, List.mem_cons, List.not_mem_nil, or_false] at hc
+      rcases hc with hc | hc | hc
+      · exact Or.inl hc
+      · exact Or.inr (Or.inl (by rw [hc]; rfl))
+      · right; right; rw [hc]; decide
     · cases h
       refine ⟨by simp, ?_⟩
       intro c hc
